@@ -175,6 +175,22 @@ func registerBigInt(e *Engine) {
 		c := x.bigCell(args[0])
 		neg, mag := x.bigGet(x.bigCell(args[1]))
 		n := args[2].(*Term)
+		if mag.IsConst() {
+			// constant magnitude (the code shifts the constant 1): no double-width shift needed
+			bl := mag.BigVal().BitLen()
+			if bl == 0 {
+				x.bigSet(c, neg, mag)
+				return c
+			}
+			fits := x.ctx.ULe(n, x.ctx.BV(uint64(bigW-bl), n.W))
+			if !fits.IsTrue() {
+				if !x.branch(fits) {
+					panic(pathEnd{Kind: "bound", Msg: fmt.Sprintf("big.Int.Lsh result exceeds the modelled %d bits", bigW), Site: x.site()})
+				}
+			}
+			x.bigSet(c, neg, x.ctx.Shl(mag, x.ctx.Resize(n, bigW, false)))
+			return c
+		}
 		// result must fit: mag < 2^(bigW-n)
 		wide := x.ctx.ZExt(mag, bigW) // 2*bigW bits
 		sh := x.ctx.Shl(wide, x.ctx.Resize(n, 2*bigW, false))
